@@ -137,8 +137,15 @@ pub fn observe(t: &mut Toks) -> String {
         let doc = match graphml::write_graphml_string(&g) { Ok(d) => d, Err(_) => return "i.write=error".to_string() };
         // the file variant must produce the same document
         let path = format!("/verif/work/tmp_graphml_{}.xml", std::process::id());
+        let mut file_read: Option<Result<Graph<String, ()>, graphrs::Error>> = None;
         let file_same = match graphml::write_graphml_file(&g, &path) {
-            Ok(_) => { let s = std::fs::read_to_string(&path).unwrap_or_default(); let _ = std::fs::remove_file(&path); s == doc }
+            Ok(_) => {
+                let s = std::fs::read_to_string(&path).unwrap_or_default();
+                // the file variant of the reader must see the same graph as the string variant
+                file_read = std::panic::catch_unwind(|| graphml::read_graphml_file(&path, specs.to_graph_specs())).ok();
+                let _ = std::fs::remove_file(&path);
+                s == doc
+            }
             Err(_) => false,
         };
         let mut it = Intern::new(&table);
@@ -146,7 +153,11 @@ pub fn observe(t: &mut Toks) -> String {
         match guarded_read(doc, specs.to_graph_specs()) {
             Err(s) => s,
             Ok(Err(e)) => format!("i.rnodes=E{0}|i.redges=E{0}|i.rdir=E{0}|i.filesame={1}|i.tok={2} {0}", err_code(&e.kind), file_same as u8, evs),
-            Ok(Ok(rg)) => format!("{}|i.filesame={}|i.tok={} 0", p_read(&rg, &mut it), file_same as u8, evs),
+            Ok(Ok(rg)) => {
+                let a = p_read(&rg, &mut it);
+                let file_read_same = match &file_read { Some(Ok(fg)) => p_read(fg, &mut it) == a, _ => false };
+                format!("{}|i.filesame={}|i.fileread={}|i.tok={} 0", a, file_same as u8, file_read_same as u8, evs)
+            }
         }
     } else {
         let bytes: Vec<u8> = t.list(|t| t.next() as u8);
@@ -358,4 +369,56 @@ pub fn candidates(line: &str) -> Vec<String> {
         }
     }
     out
+}
+
+
+/// `xmlbig <seed> <n> <directed>`: a document well above 64 KiB whose names are dense in 2-, 3- and 4-byte characters, written with
+/// `write_graphml_file` and read back with `read_graphml_file` (whatever either of them does in blocks sees multi-byte characters at
+/// every alignment)
+pub fn observe_big(t: &mut Toks) -> String {
+    let seed = t.next() as u64;
+    let n = t.next() as usize;
+    let directed = t.next() != 0;
+    let mut rng = Rng::new(seed);
+    let alphabet = ['é', 'ß', '日', '€', '😀', '𝔘', '🦀', 'a', '&', '<'];
+    let names: Vec<String> = (0..n).map(|i| {
+        let mut s = format!("{}", i);
+        for _ in 0..rng.range(3, 9) { s.push(*rng.pick(&alphabet)); }
+        s
+    }).collect();
+    let mut edges: Vec<(usize, usize, Option<f64>)> = vec![];
+    let mut seen = std::collections::HashSet::new();
+    for _ in 0..n {
+        let (u, v) = (rng.below(n as u64) as usize, rng.below(n as u64) as usize);
+        let key = if directed { (u, v) } else { (u.min(v), u.max(v)) };
+        if u == v || !seen.insert(key) { continue; }
+        edges.push((u, v, if rng.chance(30) { None } else { Some(rng.range(1, 1000) as f64 / 8.0) }));
+    }
+    let specs = if directed { graphrs::GraphSpecs::directed() } else { graphrs::GraphSpecs::undirected() };
+    let g = match Graph::<String, ()>::new_from_nodes_and_edges(
+        names.iter().map(|x| Node::from_name(x.clone())).collect(),
+        edges.iter().map(|e| match e.2 { Some(w) => Edge::with_weight(names[e.0].clone(), names[e.1].clone(), w), None => Edge::new(names[e.0].clone(), names[e.1].clone()) }).collect(),
+        specs.clone(),
+    ) { Ok(g) => g, Err(e) => return format!("i.build=E{}", err_code(&e.kind)) };
+    let path = format!("/verif/work/tmp_graphml_big_{}.xml", std::process::id());
+    if graphml::write_graphml_file(&g, &path).is_err() { return "i.bigfile=0:write failed".to_string(); }
+    let size = std::fs::metadata(&path).map(|m| m.len()).unwrap_or(0);
+    let p2 = path.clone();
+    let r = std::panic::catch_unwind(move || graphml::read_graphml_file(&p2, specs));
+    let _ = std::fs::remove_file(&path);
+    let canon = |g: &Graph<String, ()>| -> (Vec<String>, Vec<(String, String, u64)>) {
+        let ns: Vec<String> = g.get_all_nodes().iter().map(|x| x.name.clone()).collect();
+        let mut es: Vec<(String, String, u64)> = g.get_all_edges().iter().map(|e| (e.u.clone(), e.v.clone(), if e.weight.is_nan() { u64::MAX } else { e.weight.to_bits() })).collect();
+        es.sort();
+        (ns, es)
+    };
+    let verdict = match r {
+        Err(_) => "0:read_graphml_file panicked".to_string(),
+        Ok(Err(e)) => format!("0:read error E{}", err_code(&e.kind)),
+        Ok(Ok(rg)) => {
+            let (a, b) = (canon(&g), canon(&rg));
+            if a == b { "1".to_string() } else if a.0 != b.0 { format!("0:node names differ ({} vs {})", a.0.len(), b.0.len()) } else { "0:edges differ".to_string() }
+        }
+    };
+    format!("i.build=0|i.bigfile={}|i.bytes={}", verdict, size)
 }
